@@ -406,6 +406,29 @@ type progCase struct {
 
 var goTy = map[byte]string{'i': "int", 's': "string", 'e': "error"}
 
+// nestStmt prints a statement that is not the last one of its body somewhere below the function's top level: in an if, a
+// for, a labelled for or switch, a bare block, a switch case, a range loop or a select — for the resolver (and the model)
+// every return of the function counts wherever it stands; the kind of nesting is chosen by k
+func nestStmt(k int, label, stmt, in string) string {
+	switch k % 8 {
+	case 1:
+		return fmt.Sprintf("%sfor cond {\n%s\t%s\n%s}\n", in, in, stmt, in)
+	case 2:
+		return fmt.Sprintf("%s%s:\n%sfor {\n%s\tif cond {\n%s\t\t%s\n%s\t}\n%s\tbreak %s\n%s}\n", in, label, in, in, in, stmt, in, in, label, in)
+	case 3:
+		return fmt.Sprintf("%s%s:\n%sswitch {\n%scase cond:\n%s\t%s\n%sdefault:\n%s\tbreak %s\n%s}\n", in, label, in, in, in, stmt, in, in, label, in)
+	case 4:
+		return fmt.Sprintf("%s{\n%s\tif cond {\n%s\t\t%s\n%s\t}\n%s}\n", in, in, in, stmt, in, in)
+	case 5:
+		return fmt.Sprintf("%sswitch vi {\n%scase 1:\n%s\tif cond {\n%s\t\t%s\n%s\t}\n%s}\n", in, in, in, in, stmt, in, in)
+	case 6:
+		return fmt.Sprintf("%sfor range 2 {\n%s\tif cond {\n%s\t\t%s\n%s\t}\n%s}\n", in, in, in, stmt, in, in)
+	case 7:
+		return fmt.Sprintf("%sselect {\n%sdefault:\n%s\tif cond {\n%s\t\t%s\n%s\t}\n%s}\n", in, in, in, in, stmt, in, in)
+	}
+	return fmt.Sprintf("%sif cond {\n%s\t%s\n%s}\n", in, in, stmt, in)
+}
+
 func (c *progCase) source() string {
 	var b strings.Builder
 	b.WriteString("package p\n\nvar vi int\nvar vs string\nvar va any\nvar cond bool\n\n")
@@ -431,7 +454,7 @@ func (c *progCase) source() string {
 				}
 			}
 			if q < len(fn.Rets)-1 {
-				fmt.Fprintf(&b, "\tif cond {\n\t\treturn %s\n\t}\n", strings.Join(srcs, ", "))
+				b.WriteString(nestStmt(f*7+q*3, fmt.Sprintf("L%d_%d", f, q), "return "+strings.Join(srcs, ", "), "\t"))
 			} else {
 				fmt.Fprintf(&b, "\treturn %s\n", strings.Join(srcs, ", "))
 			}
@@ -997,7 +1020,7 @@ func init() {
 				return &progCase{Fs: fs, Q: r.Intn(len(fs))}
 			},
 			BatchRun: progBatch, ShrinkBudget: 30, MaxShrinks: 5,
-			Rule: "programs of 2–6 functions over the core language (1–3 results of int/string/error, 1–3 return statements, literals, opaque expressions, nil, single-result calls, multi-value forwarding, self and mutual recursion through any result index, literal-only functions) printed to Go, loaded with the real loader (120 per load) and asked in supervised child processes (small maximum stack, time limit, the query that kills a child is reported as not returning and a fresh child carries on); compared: FuncResults.String() with the model; oracle in the child: n lists, each non-empty, alternatives constants or assignable types, same answer twice; literal-only functions against their literals",
+			Rule: "programs of 2–6 functions over the core language (1–3 results of int/string/error, 1–3 return statements (all but the last nested in an if, a for, a labelled for or switch, a bare block, a switch case, a range loop or a select), literals, opaque expressions, nil, single-result calls, multi-value forwarding, self and mutual recursion through any result index, literal-only functions) printed to Go, loaded with the real loader (120 per load) and asked in supervised child processes (small maximum stack, time limit, the query that kills a child is reported as not returning and a fresh child carries on); compared: FuncResults.String() with the model; oracle in the child: n lists, each non-empty, alternatives constants or assignable types, same answer twice; literal-only functions against their literals",
 		},
 		xprogStream,
 		{
